@@ -80,8 +80,19 @@ func c15Incoming(m JSONMarshaler, send func(v any) error, pub *c15Pub) (kind int
 	vrt.Assert(pub.topics[0] == "topic."+m.Name(v), "on the topic the configuration generates for the type name")
 	vrt.Assert(msg.Metadata.Get("name") == m.Name(v), "carrying the type name")
 	if kind == 3 {
-		msg = message.NewMessage("bad", message.Payload(vrt.Bytes("garbage", 2)))
+		if vrt.Bool("malformed.after.a.valid.value") {
+			// a payload that merely starts with a well-formed value ('{...} garbage', two documents glued together)
+			tail := vrt.Bytes("trailing", 2)
+			vrt.Assume(len(tail) > 0 && tail[0] > ' ')
+			msg = message.NewMessage("bad", append(append([]byte{}, msg.Payload...), tail...))
+		} else {
+			msg = message.NewMessage("bad", message.Payload(vrt.Bytes("garbage", 2)))
+		}
 		msg.Metadata.Set("name", m.Name(&a))
+	}
+	if vrt.Bool("context.carries.an.earlier.original") {
+		// the message was published by a handler with that handler's context, and the Pub/Sub kept the context
+		msg.SetContext(CtxWithOriginalMessage(msg.Context(), message.NewMessage("earlier", nil)))
 	}
 	return
 }
